@@ -12,11 +12,12 @@ class ExportConfigBash(ExportConfig):
             kwargs['dtype'] = Format.VALUE
         super().__init__(env, **kwargs)
         
-    def _parse_scalar(self, value):
+    def _parse_scalar(self, value, quote=True):
         if value is None:
             value = ''
         elif isinstance(value, str):
-            value = f"\"{value}\""
+            if quote:
+                value = f"\"{value}\""
         elif isinstance(value, bool):
             value = "0" if value else "-1"   # in bash 0 is true and usually 1, -1 for error
         return value
@@ -27,7 +28,8 @@ class ExportConfigBash(ExportConfig):
             if isinstance(value,(np.ndarray,tuple,list)):
                 string, shape = self._parse_array(name, value, coord+[v])
             else:
-                string, shape = self._parse_scalar(value), None
+                # elements of one-dimensional arrays are quoted when the list is joined
+                string, shape = self._parse_scalar(value, quote=len(coord)>0), None
             strings.append( string )
         if shape is None:
             shape = [len(values)]
